@@ -50,6 +50,9 @@ CHECKS = {
  "C14": ("complete enumeration of the finite tables: every jet of the three families (codes, prefix-freeness, names, type names), every Elements jet against the C tables through the real C decoder and type inference, every Core jet against its Elements namesake, every extern declaration against the clang-dumped C prototype",
          "All 368 + 471 + 428 jets and all ~590 extern items of simplicity-sys (497 functions). Exhaustive over these finite sets.",
          "Trusts clang's AST for the C side and the regex extraction of the Rust extern blocks (an audit that finds fewer than 400 items fails). Return types and statics are compared but only reported as notes.", "5/C14"),
+ "C15": ("exhaustive enumeration of (environment, field jet, index) triples over a menu-product environment space, each jet executed on the real Bit Machine in an environment built by the public ElementsEnv::new and compared with the value computed from the Rust-side transaction",
+         "~80 one-deviation environments (thorough: ~2500 two-deviation ones) over inputs 1-3 (pegin, new issuance / reissuance x explicit/confidential/null amounts x proofs, annex absent/empty/1/300 bytes, sequences, script_sig), outputs 0-3 (explicit/confidential asset, value, nonce; empty/1-byte/OP_RETURN/300-byte scripts; proofs; fees in two assets), lock times, versions, 0/1/2/128 merkle steps, leaf-version parity; x 58 jets (all 16 current_* mirrors) x every index in [0, n+1] plus 2^31 and 2^32-1; sighash_all() == sig_all_hash.",
+         "Expected values are computed from the elements crate's structures and the harness's own SHA-256. The 40 aggregate-hash jets are not given an independent expectation here (C06 compares their outputs with the C evaluator).", "5/C15"),
  "C16": ("exhaustive enumeration of all policy trees up to a node bound x every subset of available secrets x lock-time environments x every reordering of commutative children, judged by Boolean/threshold semantics with leaf truth obtained by running the leaf's own compiled fragment",
          "All policies with <=3/5 nodes over 10 leaves (2 keys, a hash, after 41/42/43, older 1/2, trivial, unsatisfiable) and and/or/thresh(k, 2-3 children, 0<=k<=n): Policy::cmr == commit().cmr(); for each of 8 availability subsets x 5/8 environments (lock time and sequence below/at/above the thresholds, final, time-typed, disabled): satisfy succeeds <=> the policy is true, the returned program has the policy's CMR and runs. Canonical sorting: all policies with <=5 nodes, every permutation of commutative children at every depth, idempotence.",
          "Signatures are real BIP-340 signatures from fixed keys. Larger policies are not explored.", "5/C16"),
